@@ -802,6 +802,28 @@ def _sroa(facts, w):
             adt = facts.adt(ty["def"])
             if adt is not None and len(adt.get("variants", [])) == 1 and adt["variants"][0]["fields"]:
                 cand[l] = (ty["def"], adt["variants"][0]["fields"])
+    # ... and the environments of closures whose call was inlined: `with_lock(|g| { *hits += 1 })` leaves a closure value that
+    # is only read field by field (its captured references); splitting it lets the writes through those references be seen
+    clo_fields = {}
+    for blk in w.blocks:
+        if blk.get("dead"):
+            continue
+        for s_ in blk["stmts"]:
+            if s_["k"] == "assign" and not s_["lhs"]["p"] and s_["rv"]["k"] == "agg" and s_["rv"].get("ak") == "closure":
+                fl_ = []
+                for k_, o_ in enumerate(s_["rv"]["ops"]):
+                    pl_ = o_.get("move") or o_.get("copy")
+                    if pl_ is None or pl_["p"]:
+                        fl_ = None
+                        break
+                    fl_.append({"ty": w.locals[pl_["l"]]["ty"], "name": str(k_)})
+                if fl_:
+                    clo_fields[s_["rv"]["def"]] = fl_
+    inlined_closures = {blk["term"]["inl_call"]["callee"] for blk in w.blocks if not blk.get("dead") and blk["term"].get("inl_call")}
+    for l, loc in enumerate(w.locals):
+        ty = types[loc["ty"]]
+        if ty.get("k") == "closure" and ty.get("def") in clo_fields and ty.get("def") in inlined_closures and l > body.arg_count:
+            cand[l] = (ty["def"], clo_fields[ty["def"]])
     if not cand:
         return False
     defs = {}
@@ -814,6 +836,19 @@ def _sroa(facts, w):
         t = blk["term"]
         if t["k"] == "call" and not t["dest"]["p"]:
             defs.setdefault(t["dest"]["l"], []).append(None)
+    # a closure handed through a generic helper travels in locals typed `F` / `impl FnOnce(..)`: they hold that closure
+    grew = True
+    while grew:
+        grew = False
+        for l_, ds_ in defs.items():
+            if l_ in cand or len(ds_) != 1 or ds_[0] is None or l_ <= body.arg_count or types[w.locals[l_]["ty"]].get("k") != "param":
+                continue
+            rv_ = ds_[0]["rv"]
+            if rv_["k"] == "use":
+                pl_ = rv_["op"].get("move")
+                if pl_ is not None and not pl_["p"] and pl_["l"] in cand and types[w.locals[pl_["l"]]["ty"]].get("k") in ("closure", "param"):
+                    cand[l_] = cand[pl_["l"]]
+                    grew = True
     # aliases: R = &X | &mut X | &(*R') | move R' | copy R'   (each with exactly one definition); alias_of[R] = X
     alias_of = {}
     grew = True
@@ -838,6 +873,7 @@ def _sroa(facts, w):
                 alias_of[r] = src
                 grew = True
     bad = set()
+    noop_drops = []
     links = []          # (X, Y) for X = move Y between candidates
 
     def judge(pl):
@@ -856,7 +892,7 @@ def _sroa(facts, w):
                 lhs, rv = s_["lhs"], s_["rv"]
                 if lhs["l"] in cand and not lhs["p"]:
                     adt_def, fields = cand[lhs["l"]]
-                    if rv["k"] == "agg" and rv.get("ak") == "adt" and rv.get("def") == adt_def and len(rv["ops"]) == len(fields):
+                    if rv["k"] == "agg" and rv.get("ak") in ("adt", "closure") and rv.get("def") == adt_def and len(rv["ops"]) == len(fields):
                         _places(rv, pls)
                     elif rv["k"] == "use" and (rv["op"].get("move") or rv["op"].get("copy") or {}).get("l") in cand and \
                             not (rv["op"].get("move") or rv["op"].get("copy"))["p"] and cand[(rv["op"].get("move") or rv["op"].get("copy"))["l"]][0] == adt_def:
@@ -873,7 +909,12 @@ def _sroa(facts, w):
             for pl in pls:
                 judge(pl)
         pls = []
-        _places(blk["term"], pls)
+        t_ = blk["term"]
+        if t_["k"] == "drop" and not t_["place"]["p"] and t_["place"]["l"] in cand and \
+                all(types[f_["ty"]].get("k") in ("ref", "prim") for f_ in cand[t_["place"]["l"]][1]):
+            noop_drops.append(blk)          # dropping an environment of references and numbers does nothing
+        else:
+            _places(t_, pls)
         for pl in pls:
             judge(pl)
     for x in list(cand):
@@ -906,6 +947,9 @@ def _sroa(facts, w):
         elif pl["l"] in alias_of and alias_of[pl["l"]] in fl and len(pl["p"]) >= 2 and pl["p"][0] == "*":
             k = pl["p"][1]["f"]
             pl["l"], pl["p"] = fl[alias_of[pl["l"]]][k], pl["p"][2:]
+    for blk in noop_drops:
+        if blk["term"]["place"]["l"] in fl:
+            blk["term"] = _goto(blk["term"]["target"], blk["term"]["span"])
     for blk in w.blocks:
         if blk.get("dead"):
             continue
@@ -940,6 +984,102 @@ def _sroa(facts, w):
         _places(blk["term"], pls)
         for pl in pls:
             fix(pl)
+    return True
+
+
+def _deref_promote(w):
+    """a local that only ever holds `&x` / `&mut x` of one other local (a reference captured by an inlined closure, passed on
+    by moves) and is only used through `*`: its dereferences are accesses of x itself"""
+    defs = {}
+    for blk in w.blocks:
+        if blk.get("dead"):
+            continue
+        for s_ in blk["stmts"]:
+            if s_["k"] == "assign" and not s_["lhs"]["p"]:
+                defs.setdefault(s_["lhs"]["l"], []).append(s_)
+        t = blk["term"]
+        if t["k"] == "call" and not t["dest"]["p"]:
+            defs.setdefault(t["dest"]["l"], []).append(None)
+    root = {}
+    grew = True
+    while grew:
+        grew = False
+        for r, ds in defs.items():
+            if r in root or len(ds) != 1 or ds[0] is None or r <= w.body.arg_count:
+                continue
+            rv = ds[0]["rv"]
+            if rv["k"] == "ref" and not rv["place"]["p"] and w.body.types[w.locals[r]["ty"]].get("k") == "ref":
+                root[r] = (rv["place"]["l"], [])
+                grew = True
+            elif rv["k"] == "use":
+                pl = rv["op"].get("move") or rv["op"].get("copy")
+                if pl is not None and not pl["p"] and pl["l"] in root:
+                    root[r] = root[pl["l"]]
+                    grew = True
+    if not root:
+        return False
+    bad = set()
+    for blk in w.blocks:
+        if blk.get("dead"):
+            continue
+        for s_ in blk["stmts"]:
+            if s_["k"] in ("live", "dead"):
+                continue
+            pls = []
+            if s_["k"] == "assign" and not s_["lhs"]["p"] and s_["lhs"]["l"] in root:
+                continue                      # the definition itself
+            _places(s_, pls)
+            for pl in pls:
+                if pl["l"] in root and not (pl["p"] and pl["p"][0] == "*"):
+                    bad.add(pl["l"])
+        pls = []
+        _places(blk["term"], pls)
+        for pl in pls:
+            if pl["l"] in root and not (pl["p"] and pl["p"][0] == "*"):
+                bad.add(pl["l"])
+    # a reference that is passed on whole anywhere (other than into another promoted reference) stays
+    grew = True
+    while grew:
+        grew = False
+        for r, ds in defs.items():
+            if r in root and r not in bad and ds[0]["rv"]["k"] == "use":
+                src = (ds[0]["rv"]["op"].get("move") or ds[0]["rv"]["op"].get("copy"))["l"]
+                if src in bad:
+                    bad.add(r)
+                    grew = True
+    # ... and a source whose copy stays must stay too: its whole-local use in that definition was not judged above
+    for r, ds in defs.items():
+        if r in root and r in bad and ds[0]["rv"]["k"] == "use":
+            src = (ds[0]["rv"]["op"].get("move") or ds[0]["rv"]["op"].get("copy"))["l"]
+            bad.add(src)
+    good = {r for r in root if r not in bad}
+    # a promoted reference must not feed a kept one
+    for r, ds in defs.items():
+        if r in root and r not in good and ds[0]["rv"]["k"] == "use":
+            good.discard((ds[0]["rv"]["op"].get("move") or ds[0]["rv"]["op"].get("copy"))["l"])
+    if not good:
+        return False
+    for blk in w.blocks:
+        if blk.get("dead"):
+            continue
+        new_stmts = []
+        for s_ in blk["stmts"]:
+            if s_["k"] in ("live", "dead") and s_.get("l") in good:
+                continue
+            if s_["k"] == "assign" and not s_["lhs"]["p"] and s_["lhs"]["l"] in good:
+                continue
+            pls = []
+            _places(s_, pls)
+            for pl in pls:
+                if pl["l"] in good:
+                    pl["l"], pl["p"] = root[pl["l"]][0], pl["p"][1:]
+            new_stmts.append(s_)
+        blk["stmts"] = new_stmts
+        pls = []
+        _places(blk["term"], pls)
+        for pl in pls:
+            if pl["l"] in good:
+                pl["l"], pl["p"] = root[pl["l"]][0], pl["p"][1:]
     return True
 
 
@@ -1140,7 +1280,8 @@ def _inline_body(facts, body, policy="full"):
     if not any_change:
         return body
     _neutralise_dead(w)
-    _sroa(facts, w)
+    if _sroa(facts, w):
+        _deref_promote(w)
     return _mk_body(body, w)
 
 
